@@ -165,6 +165,37 @@ def eval_cases_in_coq(pid, mod, terms, chunk=400):
     return bad
 
 
+def explain(pid, mod, term):
+    """print a token-level diff between what the model computed and what was observed"""
+    import difflib
+    unwrap = getattr(mod, "EXPLAIN_UNWRAP", None)
+    d = os.path.join(BUILD, "explain")
+    os.makedirs(d, exist_ok=True)
+    p = os.path.join(d, f"{pid}_explain.v")
+    inner = term
+    with open(p, "w") as f:
+        f.write(f"From NIR Require Import {mod.COQ_IMPORT}.\nSet Printing Depth 100000. Set Printing Width 200.\n")
+        f.write(f"Definition c := {term}.\n")
+        if unwrap:
+            f.write(f"Definition g := {unwrap} c.\n")
+        else:
+            f.write("Definition g := c.\n")
+        f.write('Goal True. idtac "@@MODEL". exact I. Qed.\nEval vm_compute in (gmodel g).\n')
+        f.write('Goal True. idtac "@@OBS". exact I. Qed.\nEval vm_compute in (gobs g).\n')
+    rc, out = coqc_file(p)
+    if rc != 0 or "@@OBS" not in out:
+        print("   (cannot explain:", out[-300:], ")")
+        return
+    m, o = out.split("@@MODEL")[1].split("@@OBS")
+    tok = lambda t: re.findall(r'"[^"]*"|[\w.\-]+|[^\s\w]', t)
+    a, b = tok(m), tok(o)
+    sm = difflib.SequenceMatcher(None, a, b, autojunk=False)
+    for tag, i1, i2, j1, j2 in sm.get_opcodes():
+        if tag != "equal":
+            ctx = " ".join(a[max(0, i1 - 12):i1])
+            print(f"   ...{ctx[-160:]}  MODEL[{' '.join(a[i1:i2])[:200]}]  OBSERVED[{' '.join(b[j1:j2])[:200]}]")
+
+
 def load_known():
     known, fixed = [], []
     p = os.path.join(ROOT, "KNOWN_FINDINGS.txt")
@@ -293,9 +324,9 @@ def run_check(pid, tier, seed, replay, t0, debug=False):
                       f"{len(mismatches)} of {len(terms_idx)} cases")
 
     if debug:
-        for i in mismatches[:6]:
-            print("MISMATCH case:", json.dumps(cases[i])[:1500])
-            print("   coq:", outcomes[i].coq[:3000])
+        for i in mismatches[:4]:
+            print("MISMATCH case:", json.dumps(cases[i])[:600])
+            explain(pid, mod, outcomes[i].coq)
         for i in oracle_fail[:6]:
             print("ORACLE-FAIL case:", json.dumps(cases[i])[:1500], "\n   ", outcomes[i].oracle)
 
